@@ -388,9 +388,8 @@ def run(chk):
                     "libstdc++ std::hash<uint32_t> (identity) and std::hash<std::string>"]
     chk.extra["modelled_not_proved"] = ["std::hash<IPv6Address> value (modelled bit-exactly, only congruence is a theorem)",
                                         "IPv6 text <-> bytes (libc on both sides; the reference answer of libc is echoed by the model)",
-                                        "inet_pton(AF_INET) reference model V4.pton4Loop = Spec.parse4 (strict dotted quad): "
-                                        "not proved equal, both compared with libc on every run; the round trip "
-                                        "parse(fmt a) = a is a theorem under that model",
+                                        "inet_pton(AF_INET) itself is libc: the Lean reference model V4.pton4Loop (proved equal to "
+                                        "the strict dotted-quad grammar Spec.parse4) is compared with libc on every run",
                                         "big-endian #if branch of endianness.h"]
     corr.finalize_cov(chk)
 
